@@ -71,7 +71,9 @@ RULE = ("paired runs of the real drivers on small planted low-rank problems (ord
         "that the sort has to reorder) and on their relabelling against the exact model c18_relabel_cleanup (1e-12 and equal sign "
         "pattern) and against 'clean-up of the relabelled = relabelled clean-up'; relabel_setup: valid and malformed dimorder / "
         "optdims (duplicates, out of range, too short, empty) for a problem and its relabelling against c18_relabel_setup; "
-        "scale_ttm: ttm(exclude_dims=n, transpose=True) and the Gram matrix of its unfolding for integer X and c X, c in "
+        "relabel_ttm: permute, one mode product (plain and transposed) and the Gram matrix of an unfolding of an integer array and of "
+        "its relabelling (N=2..4, 3- and 4-cycles, repeated / distinct / singleton extents, wrong matrix sizes) exactly against "
+        "c18_relabel_ttm; scale_ttm: ttm(exclude_dims=n, transpose=True) and the Gram matrix of its unfolding for integer X and c X, c in "
         "{2,3,1/2,3/4,1000}, ranks that differ per mode, wrong matrix sizes and modes out of range, exactly against c18_scale_ttm. "
         "A mismatch above tolerance is a violation unless the same "
         "driver amplifies a 1e-13 / 1e-12 relative perturbation of the data (same representation) to within a factor 100 of "
@@ -915,7 +917,7 @@ class Relabel(Family):
     (`C18_relabel_cpals_run`) and the reported `dimorder` / `optdims` against the model op `c18_relabel_setup`."""
     name = "relabel"
     theorems = ("C18_relabel_step", "C18_relabel_sweep", "C18_relabel_als_query", "C18_relabel_mttkrp_spec",
-                "C18_relabel_mttkrp_law", "C18_relabel_cpals_mode_update", "C18_relabel_cpals_pass",
+                "C18_relabel_mttkrp_law", "C18_relabel_hosvd", "C18_relabel_cpals_mode_update", "C18_relabel_cpals_pass",
                 "C18_relabel_cpals_sweeps", "C18_relabel_cpals_run")
 
     def gen(self, rng, tier):
@@ -1395,6 +1397,85 @@ class ScaleTtm(Family):
         return out
 
 
+class RelabelTtm(Family):
+    """what HOSVD / Tucker-ALS do per mode, on an array and on its relabelling: `permute`, one mode product
+    (`ttm`, plain and transposed) and the Gram matrix of an unfolding — implementation, model (`c18_relabel_ttm`) and
+    the specification (`C18_relabel_hosvd_step`: mode k of the relabelled array is mode p[k] of the array) agree exactly."""
+    name = "relabel_ttm"
+    theorems = ("C18_relabel_hosvd_step", "C18_relabel_hosvd")
+
+    def gen(self, rng, tier):
+        out = []
+        reps = 40 if tier == "quick" else 220
+        for i in range(reps):
+            n = [2, 3, 3, 4][i % 4]
+            if i % 5 == 0:
+                shape = [rng.choice([2, 3])] * n
+            elif i % 5 == 1:
+                shape = [1] + rng.sample([2, 3, 4], n - 1)
+                rng.shuffle(shape)
+            else:
+                shape = rng.sample([1, 2, 3, 4, 5], n) if n < 4 else rng.sample([1, 2, 3, 4], 4)
+            p = rng.sample(range(n), n)
+            if n == 4 and i % 2:
+                p = rng.choice(PERMS4[:7])
+            k = rng.randrange(n)
+            tr = i % 3 == 0
+            ext = shape[p[k]]
+            r = rng.randint(1, 3)
+            U = ([[rng.choice([-2, -1, 0, 1, 2]) for _ in range(r)] for _ in range(ext)] if tr else
+                 [[rng.choice([-2, -1, 0, 1, 2]) for _ in range(ext)] for _ in range(r)])
+            bad = None
+            if i % 10 == 7:
+                bad = "wrong-size"
+                U = [row + [1] for row in U] if not tr else U + [U[0]]
+            X = [rng.choice([-3, -2, -1, 0, 0, 1, 2, 3]) for _ in range(int(np.prod(shape)))]
+            out.append({"shape": shape, "X": X, "p": p, "k": k, "U": U, "transpose": tr, "bad": bad})
+        return out
+
+    def evaluate(self, cases):
+        reqs = [{"op": "c18_relabel_ttm", "X": {"shape": c["shape"], "data": c["X"]}, "p": c["p"], "U": c["U"],
+                 "k": c["k"], "transpose": c["transpose"]} for c in cases]
+        out = []
+        for c, m in zip(cases, drive(reqs)):
+            shape, p, k, tr = c["shape"], c["p"], c["k"], c["transpose"]
+            tags = [f"N{len(shape)}", "transpose" if tr else "plain", c["bad"] or "valid",
+                    "id" if p == sorted(p) else ("involution" if [p[i] for i in p] == sorted(p) else "non-involution")]
+            if len(set(shape)) < len(shape):
+                tags.append("repeated-extent")
+            if 1 in shape:
+                tags.append("singleton-mode")
+            X = np.array(c["X"], dtype=float).reshape(shape, order="F")
+            U = np.array(c["U"], dtype=float)
+
+            def gram(T, mode):
+                M = T.to_tenmat(np.array([mode])).double()
+                return jval(M @ M.T)
+            T = ttb.tensor(X.copy())
+            Tp = T.permute(np.array(p))
+            a = call(lambda: dense_j(Tp.ttm(U.copy(), k, transpose=tr)))
+            b = call(lambda: dense_j(T.ttm(U.copy(), p[k], transpose=tr).permute(np.array(p))))
+            impl = {"permuted": dense_j(Tp), "ttm_perm": strip_exc(a), "ttm_then_perm": strip_exc(b)}
+            bad = None
+            if not deep_eq(dense_j(Tp), m["permuted"]):
+                bad = "permute differs from the model"
+            elif m["ttm_perm"] != m["ttm_expected"]:
+                bad = "model: the product in mode k of the relabelled array is not the relabelled product in mode p[k]"
+            elif m["gram_perm"] != m["gram"]:
+                bad = "model: the Gram matrices of the two unfoldings differ"
+            elif bool(a.get("reject")) != bool(m["ttm_perm"].get("reject")) or bool(b.get("reject")) != bool(m["ttm_perm"].get("reject")):
+                bad = "ttm accepts / rejects differently from the model"
+            elif not a.get("reject") and not (deep_eq(a["ok"], m["ttm_perm"]["ok"]) and deep_eq(b["ok"], m["ttm_perm"]["ok"])):
+                bad = "ttm of the relabelled array / relabelled ttm differ from the model"
+            elif not (deep_eq(gram(Tp, k), m["gram_perm"]) and deep_eq(gram(T, p[k]), m["gram"])):
+                bad = "the Gram matrix of the unfolding differs from the model"
+            if bad:
+                out.append(Verdict("violation", bad, impl, m, None, tags))
+            else:
+                out.append(Verdict("ok", "", impl, m, None, tags, p != sorted(p) and any(x != 0 for x in c["X"])))
+        return out
+
+
 # --- interface usage ---------------------------------------------------------------------------
 DUNDER = ("__lt__", "__le__", "__gt__", "__ge__", "__eq__", "__ne__", "__pow__", "__sub__", "__rsub__", "__add__",
           "__radd__", "__mul__", "__rmul__", "__imul__", "__truediv__", "__neg__", "__getitem__", "__setitem__")
@@ -1782,5 +1863,5 @@ class Dtype(Family):
 
 
 def families():
-    return [Repr(), Print(), Seed(), Scale(), Relabel(), RelabelCleanup(), RelabelSetup(), ScaleTtm(), Iface(), AprObserve(),
+    return [Repr(), Print(), Seed(), Scale(), Relabel(), RelabelCleanup(), RelabelSetup(), RelabelTtm(), ScaleTtm(), Iface(), AprObserve(),
             MuFixup(), Dtype()]
